@@ -23,6 +23,7 @@ from openhtf.core import test_record as TR
 import props.C02 as C02
 
 PROPERTY = 'C03'
+ALSO = ['props.C03a']     # the abort/schedule part (E3, shares the sequentialised executor with C04)
 LEVEL = 'other'
 STUBS = C02.STUBS
 KINDS = C02.KINDS
@@ -43,7 +44,7 @@ BOUNDS = {'trees': 'the trees of family T that contain groups: indices %r (top l
           'script': 'any two phases deviate from nominal with any of 13 kinds each; main endings covered: exception, STOP, timeout, failed subtest, failure inside a nested group, terminal earlier teardown node',
           'abort': 'NOT part of this E1 condition (see the E3 condition / DESIGN.md)'}
 ASSUMPTIONS = C02.ASSUMPTIONS
-OUTSIDE = ['a single operator abort arriving at any moment (schedules): see DESIGN.md section 5', 'plug tearDown ordering (C08)']
+OUTSIDE = ['plug tearDown ordering (C08)']
 
 
 def _groups(tree):
